@@ -1,3 +1,4 @@
+import Txtpp.Lemmas.ConcreteCoord
 import Txtpp.Lemmas.Term
 import Txtpp.Lemmas.SeenClosure
 /-!
@@ -42,5 +43,15 @@ theorem cycles_terminate (w : World) (inputs U : List File) (n : Nat) (s : St) (
 theorem cycles_terminate_closed (w : World) (inputs U : List File) (hin : ∀ i ∈ inputs, i ∈ U)
     (hcl : ∀ f ∈ U, ∀ d ∈ w.deps f, d ∈ U) (n : Nat) (s : St) (h : ReachN w inputs n s) : n ≤ 2 * U.length :=
   terminates_closed w inputs U hin hcl n s h
+
+/-- **concrete run: a circular-dependency verdict is always justified.** If `Txtpp::run` (real passes over
+the model file system) ends with `circular`, the dependency lists reported by the first passes of this
+very run - tabulated by `w` - contain a cycle that a still-waiting file reaches. -/
+theorem concrete_circular_verdict_has_a_cycle (cfg : Txt.Cfg) (fs : Txt.FS) (inputs : List (List Char))
+    (h : (Txt.runProject cfg fs inputs).1 = .circular) :
+    ∃ (idx : List File) (s : St) (hist : List (Task × Res)) (w : World),
+      FReach idx s hist ∧ (∀ t r, (t, r) ∈ hist → w.result t = r) ∧ s.pool = [] ∧
+      ∃ f, (∃ d, f ∈ s.dm.inE d) ∧ ReachesCycle w.deps f :=
+  Txt.runProject_circular_has_cycle cfg fs inputs h
 
 end C05
